@@ -37,16 +37,20 @@ PROPS = {
     "C01": e2e(
         "each run = one seeded scenario (1-3 calls over one handler set and one client: protocol x codec x compression sets/thresholds x kind x "
         "HTTP version, message sequences with size strata and zero-valued messages) executed under a seeded schedule with adversarial "
-        "segmentation/windows/flushing and poisoned LIFO/FIFO pools; distinct = distinct scheduler-log hash (sequence of chosen operations and "
+        "segmentation/windows/flushing, transport lags (request-body reader busy 3-300 us, end of response 3-300 us after the handler's return) and "
+        "poisoned LIFO/FIFO pools; unary calls may re-send an earlier call's Request object with a new message; with the binary codec some messages "
+        "carry a field unknown to the receiver's schema; distinct = distinct scheduler-log hash (sequence of chosen operations and "
         "their parameters) among runs in which the scheduler had >= 2 candidates at some step",
         16000, 400000),
     "C02": e2e(
         "each run = one seeded call whose handler returns an error (code 1..16, message class, 0..3 details, metadata multimap; plain errors; "
-        "NewError(code,nil)) after k messages, possibly before draining the request, under a seeded schedule/segmentation; distinct = distinct "
+        "NewError(code,nil); coded errors returned wrapped with %w; sentinel errors shared by a history of calls; histories of calls with different "
+        "errors) after k messages, possibly before draining the request, under a seeded schedule/segmentation; distinct = distinct "
         "scheduler-log hash among runs with >= 2 candidates at some step",
         16000, 300000),
     "C11": e2e(
-        "each run = one seeded call with generated request-header, response-header and response-trailer multimaps (multi-valued keys, -Bin keys) "
+        "each run = one seeded call with generated request-header, response-header and response-trailer multimaps (multi-valued keys, -Bin keys, "
+        "a third of them padded; sentinel errors shared by a history of calls, with a multiset exactness oracle for generated keys) "
         "x {success, error before first message, error after messages}; distinct = distinct scheduler-log hash among runs with >= 2 candidates",
         16000, 300000),
     "C14": e2e(
@@ -68,14 +72,16 @@ PROPS = {
         16000, 300000),
     "C19": e2e(
         "each run = one seeded call whose handler program panics (crash fault of the handler task) with nil / error / string / struct / "
-        "http.ErrAbortHandler at a seeded program point (before anything, between Sends, after the last Send) x 4 kinds x 3 protocols x position "
+        "slice / map / struct holding a slice / pointer / http.ErrAbortHandler / an error wrapping it, optionally after forwarding the received "
+        "request object to a downstream client, at a seeded program point (before anything, between Sends, after the last Send) x 4 kinds x 3 protocols x position "
         "of WithRecover among 0..3 other interceptors, plus non-panicking controls; the stub treats a panic leaving ServeHTTP as net/http does; "
         "distinct = distinct scheduler-log hash among runs with >= 2 candidates",
         16000, 100000),
     "C10": e2e(
         "each run = either a client call with a deadline d (stratified: 10^k x unit +- 1 for every gRPC unit and k=0..8, the Connect 10-digit limit, "
         "the int64 limit, log-uniform random; or no deadline) whose context is created in the same scheduler step as the library encodes the timeout "
-        "(remaining == d exactly on the fake clock), or a crafted request carrying a timeout header string (grammatical incl. leading zeros and 0; "
+        "(remaining == d exactly on the fake clock; in a third of these runs the deadline is set by a client interceptor and the caller's own context "
+        "has none or a longer one), or a crafted request carrying a timeout header string (grammatical incl. leading zeros and 0; "
         "near-grammatical: no/unknown/wrong-case unit, empty number, decimal point, hex, non-ASCII digits, embedded space, too many digits; arbitrary) "
         "served directly; the header is parsed by the reference grammar; the handler deadline is compared with arrival time + value on the fake clock; "
         "distinct = distinct scheduler-log hash among runs with >= 2 candidates",
@@ -86,7 +92,7 @@ PROPS = {
         "HTTPClient.Do, request bytes into Handler.ServeHTTP - under every enumerated segmentation: all 2^(n-1) splits for bodies of n <= 9 "
         "(thorough: 13) bytes, otherwise whole / 1 / 2 / 3 / 7-byte reads, a single split at every offset from -1 to +6 around every envelope "
         "prefix and payload end, one-byte reads across each prefix, and 12 random splits; each x {EOF with the last data, EOF on a separate "
-        "read}; oracle: outcome == outcome in one piece == outcome of the originating run; evaluations = exchanges, distinct = distinct "
+        "read}; half of the unenveloped bodies are re-delivered with a declared Content-Length; oracle: outcome == outcome in one piece == outcome of the originating run; evaluations = exchanges, distinct = distinct "
         "(protocol, kind, request bytes, response bytes); the probe 'deliveries' counts the (exchange, segmentation, EOF mode) triples",
         1200, 40000, level="fault_enumeration"),
     "C04": e2e(
@@ -101,14 +107,15 @@ PROPS = {
         "conformant response from the reference encoder mutated 1-3 times (bit flips, truncation, appended bytes, status, deleted/duplicated/"
         "swapped headers and trailers, flag bits, lying lengths, unknown encodings, abnormal end), (ii) grammar-aware adversarial fields "
         "(Connect error / end-of-stream JSON without code, code_0, wrong types; grpc-status '', '00', '-1', huge, non-numeric; details-bin garbage "
-        "or Status code 0; lower-case keys in in-body blocks), or (iii) a random status/header/body/trailer tuple; delivery segmented and scheduled "
+        "or Status code 0; lower-case keys in in-body blocks; trailer keys announced and never sent), or (iii) a random status/header/body/trailer tuple; delivery segmented and scheduled "
         "by the tape; checked: termination on the fake clock, no panic, every error is a *connect.Error with non-zero code, HTTP-status mapping for "
         "401/403/404/429/502/503/504, case-insensitive metadata lookup; distinct = distinct scheduler-log hash among runs with >= 2 candidates",
         100000, 2000000),
     "C07": e2e(
         "each run = one crafted HTTP request served by Handler.ServeHTTP (4 handler kinds x handler configurations: compression sets, read limit) "
         "from a byzantine client: a conformant request from the reference encoder left valid, mutated 1-3 times (bit flips, truncation, appended "
-        "bytes, deleted headers, flag bits, encodings, content types, lying lengths, abnormal end of body), replaced by a grammar-aware adversarial "
+        "bytes, deleted headers, flag bits, encodings, content types, lying envelope lengths, lying Content-Length on unenveloped bodies without a "
+        "read limit, abnormal end of body), replaced by a grammar-aware adversarial "
         "request with a documented outcome (unknown compression, malformed timeout, undecodable payload, corrupt compressed payload, oversize "
         "message, framing cut inside an envelope, wrong method, wrong content type, bidi over HTTP/1.1), or random; body delivery segmented by the "
         "tape; checked: ServeHTTP returns (fake-clock hang detection), no panic escapes, response strictly decodable by the reference codec for the "
@@ -120,7 +127,8 @@ PROPS = {
         "connect-go): (0) real client <-> real handler with generated programs (headers, trailers, k messages, nil or error with details and "
         "metadata), both directions recorded and strictly decoded by ref; (1) real client <-> reference server that strictly decodes the request "
         "and answers in a randomly chosen legal form (padded/unpadded -bin, upper/lower-case percent escapes, lower-case in-body keys, trailers-only "
-        "or headers+trailers, per-message compression, details-bin present or omitted); (2) reference client (bare content types, padded -bin "
+        "or headers+trailers, per-message compression, details-bin present or omitted, identity named explicitly or omitted); (2) reference client "
+        "(bare content types, padded -bin "
         "metadata, per-message compression with any supported algorithm, grammatical timeouts) -> real handler; oracle: strict decode succeeds and "
         "equals the supplied values; distinct = distinct scheduler-log hash among runs with >= 2 candidates",
         16000, 200000),
